@@ -106,7 +106,7 @@ func generate(prop, tier string, seed uint64, run int) *Scenario {
 		}
 		return genAPI(prop, seed, run, tier)
 	case "C14":
-		if pick >= 85 {
+		if pick >= 75 {
 			return genReuse(prop, seed, run)
 		}
 		return genMulti(prop, seed, run, tier)
